@@ -123,8 +123,8 @@ def spec_strategy(draw):
     elif mk == "pairs":
         srcs = draw(st.lists(st.sampled_from(PORT_POOL), min_size=1, max_size=4, unique=True))
         comma = draw(st.booleans())
-        # targets: usual ones, the source port itself (identity pair), another source port of the list
-        opts["m"] = [f"{a}:{draw(st.sampled_from([8080, 8081, 8088, 80, 9000, 18443, 65535, 1, a, a, srcs[0]]))}" + ("," if comma and j < len(srcs) - 1 else "")
+        # targets: usual ones, the source port itself (identity pair), another source port of the list - an earlier or a LATER pair's (chains: only one pair applies to a port)
+        opts["m"] = [f"{a}:{draw(st.sampled_from([8080, 8081, 8088, 80, 9000, 18443, 65535, 1, a, a, srcs[0], srcs[-1], srcs[-1]]))}" + ("," if comma and j < len(srcs) - 1 else "")
                      for j, a in enumerate(srcs)]
     else:
         opts["m"] = None
